@@ -24,6 +24,7 @@ func init() {
 	registerRule("R25", func(c *Ctx) { c.run("R21") })
 	registerRule("R30", func(c *Ctx) { c.run("R21") })
 	registerRule("R35", ruleR35)
+	registerRule("R43", ruleR43)
 	registerRule("R42", ruleR42)
 	registerRule("R36", ruleR36)
 	registerRule("R41", ruleR41)
@@ -45,7 +46,7 @@ func init() {
 	registerRule("R28", func(c *Ctx) { c.run("R27") })
 
 	registerProp(&propSpec{ID: "C01", Level: "other",
-		Rules: []string{"R01", "R02", "R03", "R05", "R37", "R21", "R22", "R24", "R41", "R36"},
+		Rules: []string{"R01", "R02", "R03", "R05", "R37", "R21", "R22", "R24", "R41", "R36", "R43"},
 		Explain: "Static clauses of 'exact map under any history', decided on the type-checked source of every copy of the tree code (5 generated kinds + collation): " +
 			"R01 every index/slice of a caller-controlled key is dominated by the length fact it needs (so probing an absent key cannot fault on a key index); " +
 			"R02 every success outcome of Search/Delete and the value overwrite of Insert is dominated by the true edge of the full-key comparison with the stored form restoreKey returns; " +
@@ -95,11 +96,11 @@ func init() {
 		Explain:    "Encoder/decoder sibling agreement of the three numeric codecs, per key type and target architecture (constant-folded bits.UintSize branches): R15 the type switches of Transform and Restore have an arm for every term of the constraint's type set; the encoding length equals unsafe.Sizeof of the key type; every encoding/binary call is on BigEndian with the width of the type; the sign-flip constant is exactly 1<<(8W-1) in both directions; float: shift 8W-1, sign constant, the offset is equal in both directions and ≥ 2, and the special codes {NaN→0, -Inf→1, +Inf→2^n-2} form the same table in both directions; R32 every reinterpreting cast is between pointer-free types of fitting size; R05 fixed width (prefix-free, concatenable).",
 		NotDecided: "The sign-magnitude→biased mask arithmetic itself and hence monotonicity/injectivity for every bit pattern: that needs enumeration or a solver, which static analysis excludes."})
 	registerProp(&propSpec{ID: "C10", Level: "other", DesignRef: "§4 C10",
-		Rules:      []string{"R19", "R09", "R10", "R22", "R20", "R37", "R41"},
+		Rules:      []string{"R19", "R09", "R10", "R22", "R20", "R37", "R41", "R43"},
 		Explain:    "R19 every use of a 4-lane SWAR search result as an index is under result < fill count (the search sees all four lanes, occupied or not), and deleteChild – the one unguarded user – is only called for a byte proven registered by findChild on the same reference; R09 the byte→child lookup of each size class and every inlined copy of it agree; R10 constant-range indexes fit [4]/[16]/[48]/[256]; R22 capacity guards equal the array lengths and shrink thresholds fit the smaller class; R20 each architecture sibling of the 16-lane routines (amd64 asm, arm64 asm, portable Go) makes its result depend on keys, fill count and probe byte, compares unsigned, and stores nothing but the result.",
 		NotDecided: "The SWAR/SIMD bit arithmetic (2^40 / 2^140 inputs): that insertPosNode4/16 return the sorted position and searchNode4 the first matching lane."})
 	registerProp(&propSpec{ID: "C11", Level: "other", DesignRef: "§4 C11",
-		Rules:      []string{"R06", "R07", "R21", "R22", "R23", "R03", "R04", "R24", "R37", "R41"},
+		Rules:      []string{"R06", "R07", "R21", "R22", "R23", "R03", "R04", "R24", "R37", "R41", "R43"},
 		Explain:    "R06 a reference is only ever read through the layout its tag names (120 casts under tag facts, 48 reference literals pairing pointer type and tag, pool assertions); R07 every kind switch has one arm per inner kind and a panicking default; R21 every grow/shrink copies every header field (prefixLen, childrenLen, prefix) to the replacement before releasing the old node; R22 capacity guards/thresholds are coherent with the array lengths; R23 node fields are written only by the node layer and the Insert split paths; R03/R04 the number of linked leaves moves in step with size on every path; R24 nodes are released only after the slot is relinked.",
 		NotDecided: "That prefix lengths/bytes equal the common extension of the keys below a node after split and merge (byte arithmetic), and history independence of the shape."})
 	registerProp(&propSpec{ID: "C12", Level: "other", DesignRef: "§4 C12",
@@ -123,7 +124,7 @@ func init() {
 		Explain:    "Static race freedom = no conflicting access pair exists: R30 the only package-level variables are the sync.Pool array (used only through Get/Put) and read-only tables; R24 pooled nodes are completely cleared and unreferenced by the releasing tree; R25 per-tree state is {root, size, codec}; R29 queries of byte-string, numeric and compound trees store nothing that outlives the call, so concurrent readers of one quiescent tree only read. Collation trees are correctly not covered (their queries write codec scratch) – exactly the property's carve-out.",
 		NotDecided: "The Go memory model guarantees of sync.Pool (trusted); a user-supplied compound codec with shared mutable state (premise of the property)."})
 	registerProp(&propSpec{ID: "C17", Level: "other", DesignRef: "§4 C17",
-		Rules:      []string{"R17", "R29", "R04", "R24", "R03"},
+		Rules:      []string{"R17", "R29", "R04", "R24", "R03", "R30"},
 		Explain:    "Structural content of 'no per-operation leak': R29/R31 nothing a query allocates is stored into memory that outlives the call; R17 the sort key is copied out of the tree-lifetime collate.Buffer and the buffer is reset on every path, so it neither grows with the number of operations nor is aliased by stored leaves; R03 an overwrite of a present key stores only the value; R04 a successful Delete overwrites the slot that held the leaf (the leaf and its key bytes become unreachable); R24 emptied nodes go back to the pool cleared.",
 		NotDecided: "Actual heap numbers; stale duplicates left in unoccupied child slots by copy-shifting are bounded by node capacity (noted, not flagged)."})
 }
